@@ -13,6 +13,9 @@ EXPLANATION = (
     "clause fails (F-tiebreak): open known findings with native witnesses. Native R-mode oracle suite as cross-check and concretiser."
 )
 ASSUMPTIONS = [
+    'MultiTypeMap.resolve (mode U): every registered method is a function with its own code object (adapt_function / rename_code give each adapted method a fresh one)',
+    'MultiTypeMap.resolve (mode U): mro returns non-empty groups and puts each method in exactly one group (mro.positions / mro._pull)',
+    
     'MultiTypeMap.mro (mode U): each handler occurs at most once in a per-entry table (register stores it under one type per entry)',
     'MultiTypeMap.mro (mode U): signatures have vararg=False (Signature.extract rejects *args; register creates the -1 table only for vararg signatures)',
     'MultiTypeMap.mro (mode U): the key is non-empty (__missing__ answers () before calling resolve)',
@@ -22,7 +25,7 @@ BOUNDS = {"e2e": "<=3 methods; call shapes (p), (p,p), (p,k); thorough adds 3 me
 
 
 def tasks(tier):
-    t = _tm.mro_unbounded_tasks() + _tm.candidate_tasks() + _tm.sort_types_tasks() + _tm.typemap_tasks() + _tm.mtm_missing_tasks(("plain",)) + _tm.resolve_tasks(tier)
+    t = _tm.mro_unbounded_tasks() + _tm.resolve_unbounded_tasks() + _tm.candidate_tasks() + _tm.sort_types_tasks() + _tm.typemap_tasks() + _tm.mtm_missing_tasks(("plain",)) + _tm.resolve_tasks(tier)
     t += _tm.e2e_tasks(["complete", "sound_single_position", "sound_chain", "sound_unrestricted", "tiebreak_scope"], tier)
     # "more specific" on plain classes is the subclass relation, with mutual subclasses (structurally identical protocols /
     # ABCs) tied: the class fragment of typeorder (shared with C12)
